@@ -6,6 +6,7 @@ import (
 	"fmt"
 	"go/token"
 	"go/types"
+	"os"
 	"strings"
 
 	"golang.org/x/tools/go/ssa"
@@ -148,6 +149,7 @@ func runC02(c *Ctx) {
 	ruleBulkFrame(c, "R02.c")
 	ruleLineReader(c, "R02.c")
 	ruleParserLifetime(c)
+	ruleNoRetryAfterParseError(c, "R02.e")
 }
 
 // ruleReaderUses: R02.a and R02.b (also used by C01/C11 for the short-read clause).
@@ -352,6 +354,10 @@ func errCheckedCall(call *ssa.Call) (bool, string) {
 						guarded = true
 					}
 				}
+			}
+			// used only as an operand of the error message built for this failure
+			if mi, ok := u.(*ssa.MakeInterface); ok && !guarded {
+				guarded = onlyFeedsErrorText(mi, 0)
 			}
 			// stored through a pointer parameter by a helper that then returns this very error on
 			// every path: the caller sees the error and is the one to discard the object
@@ -621,6 +627,12 @@ func ruleBulkFrame(c *Ctx, rid string) {
 	key := fnName(f)
 	size := linOf(mk.Len)
 	var declared ssa.Value = size.base
+	if size.base != nil && !size.isLen && size.off == 0 {
+		// the other accepted shape: the body is read into make([]byte, declared) and the two
+		// delimiter bytes into a buffer of their own
+		bulkFrameSeparateDelimiter(c, rid, f, mk, declared)
+		return
+	}
 	okSize := size.base != nil && !size.isLen && size.off == 2
 	c.check(okSize, rid, key+"/size", c.P.instrPos(mk), fmt.Sprintf("buffer length = %s", size), fmt.Sprintf("the body buffer has %s bytes, not declared+2: the following value's bytes are swallowed or the delimiter is left behind", size))
 	if !okSize {
@@ -986,7 +998,17 @@ func (p *Program) onlyStaticallyCalled(fn *ssa.Function) ([]*ssa.Call, bool) {
 					continue
 				}
 				cl, isCall := ins.(*ssa.Call)
+				if isCall && strings.HasPrefix(f.Synthetic, "wrapper for") && f.Signature.Recv() != nil {
+					// the promotion wrapper of an unexported method for an embedding type of
+					// another package: nothing there can name the method
+					if n, ok := deref(f.Signature.Recv().Type()).(*types.Named); ok && n.Obj().Pkg() != nil && fn.Pkg != nil && n.Obj().Pkg() != fn.Pkg.Pkg {
+						continue
+					}
+				}
 				if !isCall || f.Synthetic != "" || cl.Call.Value != ssa.Value(fn) {
+					if os.Getenv("DBGDISP") != "" {
+						fmt.Fprintln(os.Stderr, "non-call use of", fnName(fn), "in", fnName(f), f.Synthetic, ins.String())
+					}
 					ok = false
 					continue
 				}
@@ -1061,4 +1083,234 @@ func indexThroughSlices(ia *ssa.IndexAddr) (ssa.Value, lin, bool) {
 		x = strip(s.X)
 	}
 	return x, idx, ok
+}
+
+// ruleNoRetryAfterParseError: the parser keeps its progress inside one value only on the call
+// stack; when Next returns an error (a timeout, a reset, a malformed frame) an unknown number
+// of bytes of the value has been consumed. Calling Next again on the same stream would read the
+// rest of that value as a new one. So the error edge of Next must leave the request loop.
+func ruleNoRetryAfterParseError(c *Ctx, rid string) {
+	c.rule(rid, "in the connection loop, no path from the edge on which Parser.Next returned a non-nil error leads back to the loop header: the stream position is unknown after a failed read, a further Next would re-frame the remaining bytes")
+	n := 0
+	for _, cl := range c.P.connLoops() {
+		if cl.Loop == nil || cl.Next == nil || cl.Next.Referrers() == nil {
+			continue
+		}
+		var errEx ssa.Value
+		for _, r := range *cl.Next.Referrers() {
+			if ex, ok := r.(*ssa.Extract); ok && ex.Index == 1 {
+				errEx = ex
+			}
+		}
+		key := fnName(cl.Fn) + "/parse-error-exit"
+		if errEx == nil {
+			c.bad(rid, key, c.P.instrPos(cl.Next), "the error of Parser.Next is not read")
+			continue
+		}
+		n++
+		bad := ""
+		for _, b := range cl.Loop.sortedBlocks() {
+			for idx, s := range b.Succs {
+				isErrEdge := false
+				for _, at := range edgeOnly(b, idx) {
+					if at.Kind == "nil" && !at.Pos && at.X == errEx {
+						isErrEdge = true
+					}
+				}
+				if !isErrEdge || !cl.Loop.Blocks[s] {
+					continue
+				}
+				// stays inside the loop: can it come back to the header?
+				seen := map[*ssa.BasicBlock]bool{}
+				st := []*ssa.BasicBlock{s}
+				for len(st) > 0 {
+					x := st[len(st)-1]
+					st = st[:len(st)-1]
+					if seen[x] || !cl.Loop.Blocks[x] {
+						continue
+					}
+					seen[x] = true
+					if x == cl.Loop.Header {
+						bad = fmt.Sprintf("after Parser.Next failed (edge at %s) the loop continues with another Next on the same stream", c.P.instrPos(b.Instrs[len(b.Instrs)-1]))
+						break
+					}
+					st = append(st, x.Succs...)
+				}
+			}
+		}
+		c.check(bad == "", rid, key, c.P.instrPos(cl.Next), "a failed Next ends the connection loop", bad)
+	}
+	c.count("parse-error-exits", n)
+	c.floor("parse-error-exits", 1)
+}
+
+// onlyFeedsErrorText: the boxed value ends up only in the variadic operands of fmt.Errorf or of a
+// repository function that returns nothing but an error.
+func onlyFeedsErrorText(v ssa.Value, depth int) bool {
+	if v.Referrers() == nil || depth > 3 {
+		return false
+	}
+	any := false
+	for _, r := range *v.Referrers() {
+		switch x := r.(type) {
+		case *ssa.DebugRef:
+		case *ssa.Store:
+			ia, ok := x.Addr.(*ssa.IndexAddr)
+			if !ok {
+				return false
+			}
+			al, ok := ia.X.(*ssa.Alloc)
+			if !ok || al.Referrers() == nil {
+				return false
+			}
+			for _, ar := range *al.Referrers() {
+				if sl, ok := ar.(*ssa.Slice); ok {
+					if !onlyFeedsErrorText(sl, depth+1) {
+						return false
+					}
+					any = true
+				}
+			}
+		case *ssa.Call:
+			n := calleeName(x.Common())
+			if n == "fmt.Errorf" || n == "errors.New" {
+				any = true
+				continue
+			}
+			if h := staticCallee(x.Common()); h != nil && inRepo(h) {
+				res := h.Signature.Results()
+				if res.Len() == 1 && isErrorType(res.At(0).Type()) {
+					any = true
+					continue
+				}
+			}
+			return false
+		default:
+			return false
+		}
+	}
+	return any
+}
+
+// bulkFrameSeparateDelimiter: body = make([]byte, declared) filled by a full-read; then exactly
+// two more bytes are full-read into a 2-byte buffer and compared with CR and LF; the body buffer
+// (whole, or [0:declared]) is what is returned; no byte of the body is compared.
+func bulkFrameSeparateDelimiter(c *Ctx, rid string, f *ssa.Function, mk *ssa.MakeSlice, declared ssa.Value) {
+	key := fnName(f)
+	c.ok(rid, key+"/size", c.P.instrPos(mk), "body buffer length = declared (delimiter read separately)")
+	// the delimiter buffer: a 2-byte slice that is the destination of a full-read on the parser's reader
+	isTwoBytes := func(v ssa.Value) bool {
+		v = strip(v)
+		if m2, ok := v.(*ssa.MakeSlice); ok {
+			n, isC := constInt(m2.Len)
+			return isC && n == 2 && isByteSlice(m2.Type())
+		}
+		if sl, ok := v.(*ssa.Slice); ok && sl.Low == nil {
+			if a, ok := sl.X.(*ssa.Alloc); ok {
+				if arr, ok := deref(a.Type()).Underlying().(interface{ Len() int64 }); ok && arr.Len() == 2 {
+					if sl.High == nil {
+						return true
+					}
+					hv, isC := constInt(sl.High)
+					return isC && hv == 2
+				}
+			}
+		}
+		return false
+	}
+	var bodyRead, delimRead *ssa.Call
+	var delimBuf ssa.Value
+	allInstrs(f, func(ins ssa.Instruction) {
+		call, ok := ins.(*ssa.Call)
+		if !ok {
+			return
+		}
+		n := calleeName(call.Common())
+		args := call.Common().Args
+		full := (n == "io.ReadFull" && len(args) == 2) || (n == "io.ReadAtLeast" && len(args) == 3)
+		if !full {
+			return
+		}
+		if n == "io.ReadAtLeast" {
+			// min must be the whole buffer
+			if ml := linOf(args[2]); !sameLin(ml, lenOf(args[1])) {
+				if cv, ok := constInt(args[2]); !(ok && isTwoBytes(args[1]) && cv == 2) {
+					return
+				}
+			}
+		}
+		switch {
+		case strip(args[1]) == ssa.Value(mk):
+			bodyRead = call
+		case isTwoBytes(args[1]):
+			delimRead, delimBuf = call, strip(args[1])
+		}
+	})
+	c.check(bodyRead != nil, rid, key+"/body-read", c.P.instrPos(mk), "the body is read with a full-read into the whole buffer", "the body buffer is not filled by io.ReadFull/ReadAtLeast over its whole length")
+	okDelim := delimRead != nil && bodyRead != nil && (bodyRead.Block() == delimRead.Block() || bodyRead.Block().Dominates(delimRead.Block()))
+	if okDelim {
+		if okE, _ := errCheckedCall(delimRead); !okE {
+			okDelim = false
+		}
+	}
+	c.check(okDelim, rid, key+"/delimiter-read", c.P.pos(f.Pos()), "exactly two delimiter bytes are full-read after the body, error checked", "after the body, the two delimiter bytes are not consumed by a checked full-read of a 2-byte buffer: a short read leaves the LF behind or accepts a missing delimiter")
+	// comparisons: delimiter buffer [0]==CR, [1]==LF; none on the body
+	seen := map[int64]int64{}
+	nbad := 0
+	allInstrs(f, func(ins ssa.Instruction) {
+		ia, ok := ins.(*ssa.IndexAddr)
+		if !ok || ia.Referrers() == nil {
+			return
+		}
+		base, idx, _ := indexThroughSlices(ia)
+		onBody := base == ssa.Value(mk)
+		onDelim := delimBuf != nil && (base == delimBuf || strip(ia.X) == delimBuf)
+		if !onBody && !onDelim {
+			return
+		}
+		for _, r := range *ia.Referrers() {
+			ld, ok := r.(*ssa.UnOp)
+			if !ok || ld.Referrers() == nil {
+				continue
+			}
+			for _, u := range *ld.Referrers() {
+				bo, ok := u.(*ssa.BinOp)
+				if !ok {
+					continue
+				}
+				var k ssa.Value = bo.Y
+				if bo.Y == ssa.Value(ld) {
+					k = bo.X
+				}
+				cv, isC := constInt(k)
+				if onDelim && idx.base == nil && isC && (bo.Op == token.EQL || bo.Op == token.NEQ) {
+					seen[idx.off] = cv
+				} else if onBody {
+					nbad++
+					c.bad(rid, fmt.Sprintf("%s/content-compare#%d", key, nbad), c.P.instrPos(bo), "a byte of the bulk body is compared: payload content influences framing")
+				}
+			}
+		}
+	})
+	c.check(seen[0] == 13 && seen[1] == 10, rid, key+"/delimiter", c.P.pos(f.Pos()), "delim[0]==CR and delim[1]==LF are checked", "the two bytes after the body are not checked to be CR and LF")
+	for i, r := range returnsOf(f) {
+		if len(r.Results) != 2 || !isNilConst(retOperand(r, 1)) {
+			continue
+		}
+		v := strip(retOperand(r, 0))
+		good := v == ssa.Value(mk)
+		if sl, ok := v.(*ssa.Slice); ok && strip(sl.X) == ssa.Value(mk) {
+			lo := lin{}
+			if sl.Low != nil {
+				lo = linOf(sl.Low)
+			}
+			good = lo.base == nil && lo.off == 0 && (sl.High == nil || (linOf(sl.High).base == declared && linOf(sl.High).off == 0))
+		}
+		c.check(good, rid, fmt.Sprintf("%s/return#%d", key, i), c.P.instrPos(r), "returns the body buffer", "the bulk payload returned is not exactly the declared bytes")
+	}
+	for _, callee := range calleesIn(f) {
+		if eofTolerant(callee) != nil {
+			c.bad(rid, key+"/line-reader", c.P.pos(f.Pos()), "the bulk body is read through "+fnName(callee)+", which accepts a line cut short by end of stream")
+		}
+	}
 }
